@@ -378,6 +378,67 @@ META = {
 }
 
 
+# ------------------------------------------------------------------ C10.image: every row `ls` prints in a whole image is addressable, nothing else is
+def h_image(fmt: int, n: int, i0: int, i1: int, i2: int, i3: int) -> int:
+    """
+    pre: 0 <= fmt <= 1 and 2 <= n <= 4 and 0 <= i0 <= 27 and 0 <= i1 <= 27 and 0 <= i2 <= 27 and 0 <= i3 <= 27
+    post: _ == 1
+    """
+    CNT[0] += 1
+    from vf.util import conc, untraced
+    fmt, n = conc(fmt, 0, 1), conc(n, 2, 4)
+    idx = [conc(i, 0, 27) for i in (i0, i1, i2, i3)[:n]]
+    with untraced():
+        from vf import nameimg as N
+        from vf.props import c16
+        table = N.AKAI_NAMES if fmt == 0 else N.ROLAND_NAMES
+        if any(i >= len(table) for i in idx):
+            return 1
+        names = [table[i] for i in idx]
+        img, d, _prefix = N.build(fmt, names)
+        image = N.open_image(img)
+        rows = N.listing_names(c16._do(image, ("ls", d))[1])
+        shown = [nm for nm, _t in rows]
+        if len(set(shown)) != len(shown):
+            return 0                                     # sibling names pairwise distinct
+        if len([1 for _nm, t in rows if "Sample" in t]) != n:
+            return 0                                     # every sample of the directory is listed
+        reached = []
+        for nm, typ in rows:
+            if not nm.strip():
+                continue                                 # a blank printed name is exempt
+            for variant in (d + "/" + nm, "  " + d + "/" + nm + " ", d + "/" + nm + "/", d.replace("/", "\\") + "\\" + nm, d + " / " + nm):
+                text = c16._do(image, ("ls", variant))[1]
+                if "was not found" in text or not text.split("\n")[0].startswith(nm):
+                    return 0                             # the printed name does not resolve / resolves to something shown under another name
+                if "Sample" in typ:
+                    who = N.item_of_info(fmt, text, n)
+                    if who is None:
+                        return 0
+                    if variant == d + "/" + nm:
+                        reached.append(who)
+                    elif who != reached[-1]:
+                        return 0                         # spelling variants of one path reach different items
+                elif typ not in text.split("\n")[0]:
+                    return 0
+        if len(set(reached)) != len(reached):
+            return 0                                     # two printed names resolve to the same sample: some sample is not addressable
+        low = {x.strip().lower() for x in shown}
+        last = shown[-1]
+        for tail in ("nope", last + "x", "x" + last, last[:-1] if len(last) > 1 else "q", last + "/deeper", "\u00e9\u4e2d", last + "\x00", "(" + last + ")"):
+            text = c16._do(image, ("ls", d + "/" + tail))[1]
+            first = tail.split("/")[0].strip().lower()
+            if first in low and "/" not in tail:
+                continue                                 # the corruption is another sibling's printed name (blanks / case are not significant)
+            if "was not found" not in text:
+                return 0
+        for other in (d + "x", "x" + d, "\u00e9\u4e2d", "Q:/" + d):
+            if "was not found" not in c16._do(image, ("ls", other))[1]:
+                return 0
+    return 1
+
+
+
 def obligations(tier, seed):
     q = tier == "quick"
     obs = []
@@ -396,4 +457,7 @@ def obligations(tier, seed):
         obs.append(dict(name=f"C10.render/shape={shape}", module="vf.props.c10", func="h_render", extra_pre=[f"shape == {shape}"], timeout=170, runs=RUNS,
                         sym="entry counts per level, value width", bound="<= 3 entries per level, depth <= 3", stubs=[]))
     obs.append(dict(name="C10.action", module="vf.props.c10", func="h_action", extra_pre=[], timeout=60, runs=RUNS, sym="found / not found", bound="both", stubs=["stub image"]))
+    from vf.props import c06 as _c06
+    for o in _c06.image_obligations("C10.image", "vf.props.c10", tier, dup=True):
+        obs.append(o)
     return obs
